@@ -254,6 +254,28 @@ class Chain:
         self.steps = []
 
 
+def kwargs_sets(n, kwname):
+    """keys that statement n writes into the **kwargs dict `kwname`, with their constant value (False when not a constant):
+    kw[k] = v  /  kw.update(k=v, ...)  /  kw.update({k: v})  /  kw.setdefault(k, v) (reported as ('setdefault', v))"""
+    out = {}
+    if isinstance(n, ast.Assign) and isinstance(n.targets[0], ast.Subscript) and isinstance(n.targets[0].value, ast.Name) \
+            and n.targets[0].value.id == kwname and isinstance(n.targets[0].slice, ast.Constant):
+        out[n.targets[0].slice.value] = isinstance(n.value, ast.Constant) and n.value.value
+    call = n.value if isinstance(n, ast.Expr) else None
+    if isinstance(call, ast.Call) and isinstance(call.func, ast.Attribute) and isinstance(call.func.value, ast.Name) \
+            and call.func.value.id == kwname:
+        if call.func.attr == 'update':
+            for k in call.keywords:
+                if k.arg:
+                    out[k.arg] = isinstance(k.value, ast.Constant) and k.value.value
+            for a in call.args:
+                if isinstance(a, ast.Dict):
+                    for k, v in zip(a.keys, a.values):
+                        if isinstance(k, ast.Constant):
+                            out[k.value] = isinstance(v, ast.Constant) and v.value
+    return out
+
+
 def ctor_chain(model, cls):
     """follow the constructor chain of cls along its MRO, tracking the ensure_io_loop keyword.
     returns Chain.  Straight-line approximation: `kwargs[k] = True` anywhere in a constructor counts for calls after it."""
@@ -286,9 +308,8 @@ def ctor_chain(model, cls):
         stmts = sorted([n for n in own_nodes(fn.node) if isinstance(n, (ast.Assign, ast.Expr, ast.Call))],
                        key=lambda n: (n.lineno, n.col_offset))
         for n in stmts:
-            if isinstance(n, ast.Assign) and isinstance(n.targets[0], ast.Subscript) and isinstance(n.targets[0].value, ast.Name) \
-                    and n.targets[0].value.id == kwname and isinstance(n.targets[0].slice, ast.Constant):
-                local_kw[n.targets[0].slice.value] = isinstance(n.value, ast.Constant) and n.value.value
+            if kwname:
+                local_kw.update(kwargs_sets(n, kwname))
             call = n.value if isinstance(n, ast.Expr) else None
             if isinstance(call, ast.Call) and isinstance(call.func, ast.Attribute) and call.func.attr == '__init__':
                 target = None
